@@ -20,6 +20,7 @@ var registry = map[string]func(*core.Run){
 	"C13": checks.C13,
 	"C14": checks.C14,
 	"C16": checks.C16,
+	"C17": checks.C17,
 	"C05": checks.C05,
 	"C06": checks.C06,
 	"C07": checks.C07,
